@@ -13,6 +13,7 @@ import (
 	"encoding/json"
 	"fmt"
 	"io"
+	"log"
 	"os"
 	"os/exec"
 	"path/filepath"
@@ -1129,6 +1130,7 @@ func detailOf(path string) json.RawMessage {
 
 func main() {
 	f := gen.ParseFlags()
+	log.SetOutput(io.Discard) // the builder logs every shard it finishes
 	w := gen.NewWriter(f.Out)
 	defer w.Close()
 	work := os.Getenv("VERIF_WORK")
